@@ -64,8 +64,8 @@ OpResult World::op_make_face(const Op &op) {
     const bool rel_null = op.arg(3) != 0, short_ops = op.arg(4) != 0;
     f.preload_all = (f.options & 6) == 6;
     f.store = new Store(); f.store->id = int(faces.size()) + 100 * id; f.store->font = op.s; f.store->tables = fi->tables;
-    bool any_override = false, any_content = false;
-    for (auto &ft : op.faults) if (ft.kind.compare(0, 4, "OVR_") == 0) { if (override_fn) override_fn(*f.store, ft); any_override = true; }
+    bool any_override = false, any_content = false, any_synth = false;   // synthesised Silf/Feat name only real glyphs: the gid clause stays on
+    for (auto &ft : op.faults) if (ft.kind.compare(0, 4, "OVR_") == 0) { if (override_fn) override_fn(*f.store, ft); if (ft.kind != "OVR_SILF" && ft.kind != "OVR_FEAT") any_override = true; else any_synth = true; }
     for (auto &ft : op.faults) if (ft.kind.compare(0, 4, "OVR_") != 0) { f.faulted = true; if (!is_file_fn(ft.tag) && ft.kind != "FILE_TRUNCATED" && ft.kind != "DIR_BITROT") any_content = true; }
     f.pristine_gids = !f.faulted && !any_override;
     if (any_override) f.faulted = f.faulted; // overrides are legal storage formats, not faults
@@ -74,7 +74,7 @@ OpResult World::op_make_face(const Op &op) {
     event("make_face", u64(source), u64(f.options), u64(ctor));
     if (source == 1) {
         f.file = new FileImage();
-        if (!any_content && !any_override) f.file->bytes = fi->file;
+        if (!any_content && !any_override && !any_synth) f.file->bytes = fi->file;
         else {
             std::map<u32, Bytes> t = f.store->tables;
             for (auto &ft : op.faults) {
@@ -194,6 +194,12 @@ OpResult World::op_make_seg(const Op &op, bool is_probe, bool shared_font) {
     MonitorFlags mf; mf.gid_clause = f.pristine_gids; mf.c05 = monitor_c05;
     check_segment(s.seg, s.text, f.face, font, mf, s.view);
     if (s.seg && s.view.chain_ok) dump_segment(s.view, f.face, font, dump_attrs, r.v); else r.v.push_back(s.seg ? -2 : -1);
+    if (g_run.tracing && s.seg && s.view.chain_ok) {
+        std::string l = "SEG slots:";
+        for (auto *sl : s.view.slots) { const gr_slot *par = gr_slot_attached_to(sl); l += strf(" [gid%u b%d a%d o%d i%u p%d]", gr_slot_gid(sl), gr_slot_before(sl), gr_slot_after(sl), gr_slot_original(sl), gr_slot_index(sl), par ? int(s.view.ord[par]) : -1); }
+        l += " chars:"; for (unsigned i = 0; i < gr_seg_n_cinfo(s.seg); ++i) { const gr_char_info *ci = gr_seg_cinfo(s.seg, i); l += strf(" [U+%04X b%d a%d]", gr_cinfo_unicode_char(ci), gr_cinfo_before(ci), gr_cinfo_after(ci)); }
+        g_run.trace.push_back(l);
+    }
     if (exercise_segs) seg_exercise(s.seg, s.view, f.face, font);
     after_call_preload_check(f, "gr_make_seg");
     if (is_probe || !s.seg) {
